@@ -13,6 +13,8 @@ def main():
     ap.add_argument('--replay')
     args = ap.parse_args()
     seed = int(os.environ.get('VERIF_SEED') or 0)
+    if args.replay:
+        args.replay = os.path.abspath(args.replay)
     from harness import common, tlc
     common.sandbox()
     sys.path.insert(0, common.REPO)
